@@ -81,6 +81,12 @@ claim("C01",
       "TLA+ design theorem checked by TLC + recorded output lines validated by TLC against the grammar modules", "DESIGN.md 5/C01")
 
 
+claim("C15",
+      "Template.tla states the context equations (semver / pep440 = the renderings of Render.tla, *_obj parts recompose, docker form, scalar variables) and the function contracts (sanitize = the Sanitizer contract per preset and per subset of custom parameters, prefix, prefix_if, shape contracts for hash / hash_int, format_timestamp = Calendar.tla for a strftime subset). TLC checks the contracts' consistency and emits expected results for every value in the bound, replayed through `--output-template`; contexts of random objects and random function calls with hostile values, recorded under non-UTC time zones, are judged by Trace_Template.",
+      "Exhaustive over values <= 4 (5) symbols x 14 determined calls; random beyond. Tera itself is not modelled.",
+      GEN, "DESIGN.md 5/C15")
+
+
 def main():
     m = {
         "version": 1,
